@@ -84,7 +84,7 @@ def handle : Sexp → Option Sexp
       let cands ← allSome decProg cands
       let G' := inst G tbl
       let tags' := instTags tags tbl
-      let hyps := [tblOK tbl, tblNonEmpty tbl, rulesOK tbl G.rules, rulesOK tbl tags]
+      let hyps := [rulesOK tbl G.rules, rulesOK tbl tags, rulesNonEmpty tbl G.rules, rulesNonEmpty tbl tags]
       pure (.list [
         .list (hyps.map ofBool),
         encCFG G', encTags tags',
@@ -104,7 +104,7 @@ def handle : Sexp → Option Sexp
       let tbl ← decTbl tb
       let t ← decProg t
       let cands ← allSome decProg cands
-      pure (.list [ofBool (tblOK tbl), ofBool (progOK tbl t), encOptList (allInst tbl t),
+      pure (.list [ofBool (progOK tbl t), encOptList (allInst tbl t),
                    .list (cands.map fun c => ofBool (isInst tbl t c))])
   | .list [.atom "c17.u", r, tg, tb] => do
       let R ← decUTable r
@@ -112,7 +112,7 @@ def handle : Sexp → Option Sexp
       let tbl ← decTbl tb
       let tags' := instUTags tags tbl
       pure (.list [
-        .list ([tblOK tbl, tblNonEmpty tbl, rulesOK tbl R, rulesOK tbl tags].map ofBool),
+        .list ([rulesOK tbl R, rulesOK tbl tags, rulesNonEmpty tbl R, rulesNonEmpty tbl tags].map ofBool),
         encUTable (instU R tbl), encUTags tags',
         .list ((uRowSums tags).map encRat), .list ((uRowSums tags').map encRat)])
   | _ => none
